@@ -86,6 +86,35 @@ def rand_json(rng, depth=0):
     return {rng.choice(["a", "b", "value", "$ref", "é"]): rand_json(rng, depth + 1) for _ in range(rng.choice([0, 1, 2]))}
 
 
+NOTWIN = object()
+
+
+def twin_of(v):
+    """A JSON value that is a DIFFERENT JSON value but compares equal in Python (0/False, 1/True, also nested); NOTWIN if none."""
+    if v is True:
+        return 1
+    if v is False:
+        return 0
+    if isinstance(v, int) and v in (0, 1):
+        return bool(v)
+    if isinstance(v, list):
+        for i, x in enumerate(v):
+            t = twin_of(x)
+            if t is not NOTWIN:
+                return v[:i] + [t] + v[i + 1 :]
+    if isinstance(v, dict):
+        for k, x in v.items():
+            t = twin_of(x)
+            if t is not NOTWIN:
+                return {**v, k: t}
+    return NOTWIN
+
+
+def strict_key(v) -> str:
+    """Type-strict identity of a JSON value (True != 1 != 1.0)."""
+    return json.dumps(v, sort_keys=True, ensure_ascii=True)
+
+
 # ----------------------------------------------------------------------------------------
 # 1. produce_combinations
 # ----------------------------------------------------------------------------------------
@@ -105,7 +134,33 @@ def gen_examples(rng):
             out.append(["B", rand_json(rng), rng.choice(MEDIA[: rng.choice([1, 2, 4])])])
     if shape >= 0.9:
         out = [e for e in out if e[0] == "B"]
+    # examples of ONE slot that are pairwise == in Python but different JSON values (0/false, 1/true, nested)
+    if out and rng.random() < 0.45:
+        for _ in range(rng.choice([1, 1, 2, 3])):
+            e = rng.choice(out)
+            if rng.random() < 0.5:  # make sure there is something to flip
+                base = rng.choice([0, 1, True, False, {"n": 0, "t": "x"}, [1, "a"], {"a": [True]}, [[0]]])
+                e = [e[0], e[1], e[2], base] if e[0] == "P" else ["B", base, e[2]]
+                out.insert(rng.randrange(len(out) + 1), e)
+            t = twin_of(e[3] if e[0] == "P" else e[1])
+            if t is not NOTWIN:
+                twin = [e[0], e[1], e[2], t] if e[0] == "P" else ["B", t, e[2]]
+                out.insert(rng.randrange(len(out) + 1), twin)
     return out
+
+
+def has_twins(exs) -> bool:
+    slots = {}
+    for e in exs:
+        slot = (e[1], e[2]) if e[0] == "P" else ("body", e[2])
+        v = e[3] if e[0] == "P" else e[1]
+        slots.setdefault(slot, []).append(v)
+    for vs in slots.values():
+        for i in range(len(vs)):
+            for j in range(i + 1, len(vs)):
+                if vs[i] == vs[j] and strict_key(vs[i]) != strict_key(vs[j]):
+                    return True
+    return False
 
 
 def c_example(e) -> str:
@@ -172,6 +227,8 @@ def stage_combinations(chk, n):
         nb = sum(1 for e in exs if e[0] == "B")
         chk.seen(exs, nparams >= 2 or (nparams >= 1 and nb >= 1) or nb >= 2)
         chk.count("combos:" + ("none" if not exs else ("params+bodies" if nparams and nb else ("params" if nparams else "bodies"))))
+        if has_twins(exs):
+            chk.count("combos:with-python-equal-twins")
         if impl != mod:
             chk.disagree("produce_combinations vs Model_C17.produce_combinations", exs, impl, mod)
             continue
@@ -574,8 +631,38 @@ class Plan:
     def __init__(self, rng):
         self.rng = rng
         self.n = 0
+        self.twins = []  # values to hand out next for the current slot (pairwise == in Python, different JSON values)
+        self.twin_mode = False
+        self.twins_planted = 0
+
+    def start_slot(self, shape, prob=0.3):
+        """With probability prob the next two example values of this slot are Python-equal twins."""
+        rng = self.rng
+        self.twins, self.twin_mode = [], False
+        if rng.random() >= prob:
+            return False
+        pool = [(0, False), (1, True)]
+        if shape == "body":
+            self.n += 1
+            t = f"ex{self.n}"
+            pool += [({"k": t, "n": 0}, {"k": t, "n": False}), ([t, 1], [t, True]), ({"k": t, "n": {"deep": [1, None]}}, {"k": t, "n": {"deep": [True, None]}}), ([[0], t], [[False], t])]
+        pair = list(rng.choice(pool))
+        if rng.random() < 0.5:
+            pair.reverse()
+        self.twins, self.twin_mode = pair, True
+        return True
+
+    def end_slot(self):
+        if self.twin_mode and not self.twins:
+            self.twins_planted += 1
+        self.twins, self.twin_mode = [], False
+
+    def cnt(self, choices=(1, 2, 3)):
+        return self.rng.choice([c for c in choices if c >= 2] if self.twin_mode else list(choices))
 
     def token(self, kind="str"):
+        if self.twins:
+            return self.twins.pop(0)
         self.n += 1
         rng = self.rng
         if kind == "int":
@@ -584,6 +671,8 @@ class Plan:
         return base + rng.choice(["", "", " sp", "&a=b", "é", "%41", "+p", "'q", "#f", "?x"])
 
     def body_value(self):
+        if self.twins:
+            return self.twins.pop(0)
         rng = self.rng
         k = rng.random()
         if k < 0.35:
@@ -605,6 +694,9 @@ def place_param_examples(plan, rng, p, version, allow_findings):
     mode = rng.choice(["param_example", "param_examples", "schema_example", "schema_examples", "anyOf", "oneOf", "allOf", "mixed", "nested"] if version == 3 else ["param_example", "param_examples", "plain_example", "mixed2"])
     if mode == "nested" and not allow_findings:
         mode = "anyOf"
+    if plan.twin_mode:  # 0/false or 1/true for one parameter: a placement with at least two values, no type constraint
+        mode = rng.choice(["param_examples", "schema_examples", "anyOf", "oneOf", "allOf", "mixed"] if version == 3 else ["param_examples", "mixed2"])
+        kind, ty = "int", ({} if version == 3 else {"type": "integer"})
     schema = dict(ty)
     if mode in ("param_example", "mixed", "mixed2"):
         v = plan.token(kind)
@@ -612,7 +704,7 @@ def place_param_examples(plan, rng, p, version, allow_findings):
         out.append((v, None))
     if mode in ("param_examples", "mixed", "mixed2"):
         p[esf] = {}
-        for i in range(rng.choice([1, 2, 3])):
+        for i in range(plan.cnt()):
             v = plan.token(kind)
             if version == 3 and rng.random() < 0.3:
                 rname = f"R{plan.n}"
@@ -631,20 +723,20 @@ def place_param_examples(plan, rng, p, version, allow_findings):
         out.append((v, None))
     if mode == "schema_examples":
         schema["examples"] = []
-        for _ in range(rng.choice([1, 2, 3])):
+        for _ in range(plan.cnt()):
             v = plan.token(kind)
             schema["examples"].append(v)
             out.append((v, None))
     if mode in ("anyOf", "oneOf"):
         branches = []
-        for _ in range(rng.choice([1, 2, 3])):
+        for _ in range(plan.cnt()):
             v = plan.token(kind)
             branches.append({**ty, "example": v})
             out.append((v, None))
         schema = {mode: branches}
     if mode == "allOf":
         branches = []
-        for i in range(rng.choice([1, 2, 3])):
+        for i in range(plan.cnt()):
             b = dict(ty) if i == 0 else {}
             if rng.random() < 0.5:
                 v = plan.token(kind)
@@ -652,7 +744,7 @@ def place_param_examples(plan, rng, p, version, allow_findings):
                 out.append((v, None))
             else:
                 b["examples"] = []
-                for _ in range(rng.choice([1, 2])):
+                for _ in range(plan.cnt((1, 2))):
                     v = plan.token(kind)
                     b["examples"].append(v)
                     out.append((v, None))
@@ -680,6 +772,8 @@ def place_body_examples(plan, rng, version, allow_findings):
     if version == 2:
         modes = [m for m in modes if m not in ("schema_examples", "props_anyOf", "branches", "nested", "props_in_branch")]
     mode = rng.choice(modes)
+    if plan.twin_mode:
+        mode = rng.choice(["mt_examples", "schema_examples", "branches", "allOf", "mixed", "props"] if version == 3 else ["mt_examples", "mixed", "props"])
     schema = {"type": "object"}
     if mode in ("mt_example", "mixed"):
         v = plan.body_value()
@@ -688,7 +782,7 @@ def place_body_examples(plan, rng, version, allow_findings):
         schema = {}
     if mode in ("mt_examples", "mixed"):
         mt[esf] = {}
-        for i in range(rng.choice([1, 2, 3])):
+        for i in range(plan.cnt()):
             v = plan.body_value()
             if version == 3 and rng.random() < 0.3:
                 rname = f"R{plan.n}"
@@ -704,21 +798,29 @@ def place_body_examples(plan, rng, version, allow_findings):
         out.append(((), v, None))
     if mode == "schema_examples":
         schema = {"examples": []}
-        for _ in range(rng.choice([1, 2, 3])):
+        for _ in range(plan.cnt()):
             v = plan.body_value()
             schema["examples"].append(v)
             out.append(((), v, None))
     if mode in ("props", "mixed"):
         props = {}
         for nm in rng.sample(["a", "b", "c"], rng.choice([1, 2, 3])):
-            if rng.random() < 0.6:
+            twin_prop = bool(plan.twins) and mode == "props"
+            if twin_prop:  # a property whose examples are 0/false or 1/true
+                key = rng.choice(["examples", "examples"] if version == 3 else ["examples", "x-examples"])
+                props[nm] = {key: []}
+                while plan.twins:
+                    v = plan.token()
+                    props[nm][key].append(v)
+                    out.append(((nm,), v, None))
+            elif rng.random() < 0.6:
                 v = plan.token()
                 props[nm] = {"type": "string", rng.choice(["example", ef]): v}
                 out.append(((nm,), v, None))
             else:
                 props[nm] = {"type": "string", rng.choice(["examples", "examples"] if version == 3 else ["examples", "x-examples"]): []}
                 key = [k for k in props[nm] if k != "type"][0]
-                for _ in range(rng.choice([1, 2, 3])):
+                for _ in range(plan.cnt()):
                     v = plan.token()
                     props[nm][key].append(v)
                     out.append(((nm,), v, None))
@@ -735,14 +837,14 @@ def place_body_examples(plan, rng, version, allow_findings):
     if mode == "branches":
         key = rng.choice(["anyOf", "oneOf"])
         branches = []
-        for _ in range(rng.choice([1, 2, 3])):
+        for _ in range(plan.cnt()):
             v = plan.body_value()
             branches.append({"example": v})
             out.append(((), v, None))
         schema = {key: branches}
     if mode == "allOf":
         branches = []
-        for i in range(rng.choice([1, 2, 3]) if (version == 3 or allow_findings) else 1):
+        for i in range(plan.cnt() if (version == 3 or allow_findings) else 1):
             v = plan.body_value()
             if version == 3:
                 branches.append({"example": v} if rng.random() < 0.6 else {"examples": [v]})
@@ -796,7 +898,9 @@ def gen_document(rng, version, n_ops, allow_findings):
             elif rng.random() < 0.4:
                 p["required"] = True
             if has_examples and rng.random() < 0.65:
+                plan.start_slot("scalar", 0.25)
                 exp, r = place_param_examples(plan, rng, p, version, allow_findings and rng.random() < 0.15)
+                plan.end_slot()
                 refs.update(r)
                 for v, region in exp:
                     if loc == "path" and region is None and any(ch in str(v) for ch in "%?#/"):
@@ -824,7 +928,9 @@ def gen_document(rng, version, n_ops, allow_findings):
                         content[m] = {"schema": {"type": "string"}, "example": v}
                         info["expect"].append({"loc": "body", "media_type": m, "path": [], "value": v, "region": None})
                     else:
+                        plan.start_slot("body" if rng.random() < 0.7 else "scalar", 0.35)
                         mt, exp, r = place_body_examples(plan, rng, version, allow_findings and rng.random() < 0.15)
+                        plan.end_slot()
                         refs.update(r)
                         content[m] = mt
                         for pth, v, region in exp:
